@@ -34,6 +34,9 @@ ColSumSqs(M) == [j \in 1..M.col |-> ColSumSq(M, j)]
 ColVarNum(M) == [j \in 1..M.col |-> M.row * ColSumSq(M, j) - ColSum(M, j) * ColSum(M, j)]
 CentredNum(M) == LET S == ColSums(M) IN Mat(M.row, M.col, LAMBDA i, j : M.row * M.d[i][j] - S[j])
 CovNum(M) == LET S == ColSums(M) IN Mat(M.col, M.col, LAMBDA i, j : M.row * ColCross(M, i, j) - S[i] * S[j])
+(* a location shift: a different constant added to every column (covariance and variances do not see it; the replay *)
+(* harness applies shifts of the order of 1e6 spreads, where a one-pass sum-of-squares formula cancels)              *)
+ShiftCols(M) == Mat(M.row, M.col, LAMBDA i, j : M.d[i][j] + 7 * j - 11)
 
 (* tensor contractions, element by element (tensor.c:346-425); T is a sequence of k slices r x c *)
 (*   TransposedTensorDVectorProduct : P[s][i] = sum_j T[s][i][j] * v[j]            (k x r, v of size c)     *)
@@ -128,6 +131,7 @@ LawCovariance == (On("Covariance") /\ r >= 2) =>
   /\ \A i, j \in 1..c : Cv.d[i][i] >= 0 /\ Cv.d[i][i] * Cv.d[j][j] - Cv.d[i][j] * Cv.d[i][j] >= 0
   /\ (c <= 5 => \A v \in SmallVecs(c) : QuadForm(v, Cv) >= 0)                 \* positive semi-definite
   /\ \A j \in 1..c : Cv.d[j][j] = ColVarNum(M)[j]                             \* diagonal = variances
+  /\ CovNum(ShiftCols(M)) = Cv /\ ColVarNum(ShiftCols(M)) = ColVarNum(M)       \* unchanged by a location shift of every column
 LawColStats == On("ColStats") =>
   /\ SumF(ColSums(M), c) = SumF(RowSums(M), r)                               \* both add up to the grand total
   /\ \A j \in 1..c : ColSum(CentredNum(M), j) = 0 /\ ColVarNum(M)[j] >= 0    \* centred columns sum to zero
